@@ -1,6 +1,6 @@
 #!/bin/sh
 # runs the quick checks that overlap with each benign (property-preserving) change; any rc=1 is a false alarm to investigate
-# usage: benign_matrix.sh   (uses the private environment of mut_env.sh)
+# usage: [ONLY=A|B|C|D] benign_matrix.sh   (uses the private environment of mut_env.sh)
 V=/tmp/v2; R=/tmp/mut/repo2
 B=$(cd "$(dirname "$0")/../benign" && pwd)
 run() { # patch checks...
@@ -13,7 +13,7 @@ run() { # patch checks...
   done
   git -C $R checkout -q -- .
 }
-for n in 1 2 3 4 5 6; do run $B/A/$n.diff C01 C02 C03 C04 C05 C06 C07 C08 C09 C13 C15 C16 C17 C19; done
-for n in 1 2 3 4 5 6; do run $B/B/$n.diff C08 C12 C13 C14 C17 C19 C20; done
-for n in 1 2 3 4 5 6; do run $B/C/$n.diff C08 C09 C10 C11 C15 C16 C17 C18 C20; done
-if [ -d $B/D ]; then for n in 1 2 3 4 5 6 7 8; do [ -f $B/D/$n.diff ] && run $B/D/$n.diff C01 C03 C05 C07 C08 C09 C10 C11 C12 C13 C14 C15 C16 C17 C18 C19 C20; done; fi
+[ -n "$ONLY" ] && [ "$ONLY" != A ] || for n in 1 2 3 4 5 6; do run $B/A/$n.diff C01 C02 C03 C04 C05 C06 C07 C08 C09 C13 C15 C16 C17 C19; done
+[ -n "$ONLY" ] && [ "$ONLY" != B ] || for n in 1 2 3 4 5 6; do run $B/B/$n.diff C08 C12 C13 C14 C17 C19 C20; done
+[ -n "$ONLY" ] && [ "$ONLY" != C ] || for n in 1 2 3 4 5 6; do run $B/C/$n.diff C08 C09 C10 C11 C15 C16 C17 C18 C20; done
+if [ -d $B/D ] && { [ -z "$ONLY" ] || [ "$ONLY" = D ]; }; then for n in 1 2 3 4 5 6 7 8; do [ -f $B/D/$n.diff ] && run $B/D/$n.diff C01 C03 C05 C07 C08 C09 C10 C11 C12 C13 C14 C15 C16 C17 C18 C19 C20; done; fi
